@@ -232,7 +232,28 @@ def _base_evaluator():
     return BaseCircuitEvaluator
 
 
-def make_evaluator(n_qubits, positive=False):
+EVAL_MODES = ("hash", "coarse", "zero", "negzero", "neg", "equal")
+
+
+def mode_value(key: str, mode: str, shift: float) -> float:
+    """The fake evaluator's answer: always a deterministic function of (circuit structure, parameter values).
+    hash: multiples of 1/16 in [-4, 4) (+ shift); coarse: one of 0.0, 1.0, 2.0, 3.0 (minimum exactly 0 is likely);
+    zero: always 0.0; negzero: 0.0 or -0.0; neg: negative multiples of 1/2; equal: always 1.5."""
+    h = int.from_bytes(hashlib.sha256(key.encode()).digest()[:4], "big")
+    if mode == "coarse":
+        return float(h % 4)
+    if mode == "zero":
+        return 0.0
+    if mode == "negzero":
+        return -0.0 if h % 2 else 0.0
+    if mode == "neg":
+        return -(h % 8) / 2.0 - 0.5
+    if mode == "equal":
+        return 1.5
+    return key_value(key) + shift
+
+
+def make_evaluator(n_qubits, positive=False, mode="hash"):
     Base = _base_evaluator()
 
     class FakeEvaluator(Base):
@@ -244,7 +265,7 @@ def make_evaluator(n_qubits, positive=False):
 
         def evaluate_circuits(self, circuits, parameter_values):
             keys = [circuit_key(c, v) for c, v in zip(circuits, parameter_values)]
-            vals = [key_value(k) + self.shift for k in keys]
+            vals = [mode_value(k, mode, self.shift) for k in keys]
             self.calls.append((_Ctx.task, keys, vals))
             return list(vals)
 
@@ -255,7 +276,7 @@ def make_evaluator(n_qubits, positive=False):
         def value_of(self, individual):
             """The evaluator's answer for this individual (not logged)."""
             k = circuit_key(individual.get_parameterized_quantum_circuit(), list(individual.get_parameter_values()))
-            return key_value(k) + self.shift
+            return mode_value(k, mode, self.shift)
 
     return FakeEvaluator()
 
@@ -456,6 +477,10 @@ def snapshot_result(res, table):
 
 
 # ------------------------------------------------------------------ running a sequence
+class MalformedOutput(Exception):
+    """apply_operator returned something that is not a readable EVQEPopulation."""
+
+
 class Step:
     def __init__(self, spec):
         self.spec = spec
@@ -527,7 +552,7 @@ def run_sequence(spec, after_step=None) -> Trace:
 
     tr = Trace(spec)
     with install():
-        ev = make_evaluator(spec["n"], positive=spec.get("positive", False))
+        ev = make_evaluator(spec["n"], positive=spec.get("positive", False), mode=spec.get("evalmode", "hash"))
         tr.evaluator = ev
         optimizer = make_optimizer()
         ex = ForcedOrderExecutor(spec.get("workers", 1), spec.get("order", ()))
@@ -569,9 +594,13 @@ def run_sequence(spec, after_step=None) -> Trace:
             step.eval_calls = ev.calls[n_calls:]
             tr.steps.append(step)
             if step.exc is None:
-                step.out_snap = snapshot_population(out, tr.table)
-                step.out_loc = _number_list(tr, out)
-                tr.observations.append(Observation("returned", len(tr.steps) - 1, out, step.out_snap, identity_of(out)))
+                try:
+                    step.out_snap = snapshot_population(out, tr.table)
+                    step.out_loc = _number_list(tr, out)
+                    tr.observations.append(Observation("returned", len(tr.steps) - 1, out, step.out_snap, identity_of(out)))
+                except Exception as e:  # noqa: BLE001 - what was returned is not a population
+                    step.exc = MalformedOutput(f"apply_operator returned {type(out).__name__} that cannot be read as a population: {type(e).__name__}: {e}")
+                    step.out = None
             if after_step is not None:
                 after_step(tr, step, len(tr.steps) - 1)
             if step.exc is not None:
@@ -786,13 +815,32 @@ def submitted_indices(s):
     return out if len(out) == len(s.tasks) else None
 
 
+def oracle_c11_step(tr: Trace, report, steps):
+    """Right after an application: the population passed in still has the structure it had before the call (also
+    when the operator returned that very object), and so has every object observed earlier."""
+    for si, s in steps:
+        try:
+            now = snapshot_population(s.arg, tr.table)
+        except Exception as e:  # noqa: BLE001
+            report(f"modified-input-{s.spec['op']}-unreadable", f"{s.spec['op']} left the population passed to it unreadable: {type(e).__name__}: {e}", si)
+            continue
+        if now != s.arg_snap:
+            field = _first_diff(s.arg_snap, now)
+            same = " (and returned that very object)" if s.out is s.arg else ""
+            report(f"modified-input-{s.spec['op']}-{field}", f"{s.spec['op']} modified the population passed to it{same}: {field} was {_get(s.arg_snap, field)} before the call, is {_get(now, field)} after it", si)
+
+
 def oracle_c11(tr: Trace, report):
     """Every observed object still has the structure it had when it was observed."""
     for o in tr.observations:
-        if o.kind == "payload":
-            now = snapshot_result(o.obj, tr.table)
-        else:
-            now = snapshot_population(o.obj, tr.table)
+        try:
+            if o.kind == "payload":
+                now = snapshot_result(o.obj, tr.table)
+            else:
+                now = snapshot_population(o.obj, tr.table)
+        except Exception as e:  # noqa: BLE001
+            report(f"changed-{o.kind}-unreadable", f"an observed object (step {o.step}) can no longer be read at the end of the run: {type(e).__name__}: {e}", o.step)
+            continue
         if now != o.snap:
             field = _first_diff(o.snap, now)
             what = {"argument": "the population passed to apply_operator", "payload": "the evaluation result reported through result_callback",
@@ -945,6 +993,10 @@ def random_population(rng, n=None, size=None):
     size = size or rng.randint(2, 8)
     base_layers = rng.randint(1, 4)
     vals = lambda: rng.choice([0.0, 0.5, -1.25, 2.0, 3.141592653589793, rng.uniform(-6, 6)])  # noqa: E731
+    if rng.random() < 0.2:
+        # all parameters 0 (as EVQEPopulation.random_population(randomize_parameter_values=False) builds them): individuals
+        # that differ only in WHICH gate sits on a qubit then have equal hashes, i.e. compare equal (see individual_heq)
+        vals = lambda: 0.0  # noqa: E731
     inds = []
     for _ in range(size):
         r = rng.random()
@@ -1002,7 +1054,8 @@ def random_spec(rng, max_len=12):
         reps = [json.loads(json.dumps(rng.choice(pool))) for _ in range(rng.randint(0, 5))]
     workers = rng.randint(1, 4)
     return {"n": n, "inds": inds, "reps": reps, "steps": random_steps(rng, rng.randint(1, max_len)), "workers": workers,
-            "order": [rng.randint(0, 7) for _ in range(24)], "positive": rng.random() < 0.5}
+            "order": [rng.randint(0, 7) for _ in range(24)], "positive": rng.random() < 0.5,
+            "evalmode": rng.choice(["hash", "hash", "hash", "coarse", "coarse", "zero", "negzero", "neg", "equal"])}
 
 
 # ------------------------------------------------------------------ shared driver of the C10 / C11 checks
@@ -1019,6 +1072,69 @@ def all_orders_specs(rng):
     return specs
 
 
+def merge_specs(rng, count):
+    """Directed at phase 2 of speciation: two members that are structurally different but equal for
+    EVQEIndividual.__eq__ (all parameters 0, the same qubits carrying another kind of gate) are put into different
+    species by an incoming representative that is close to only one of them; when both are drawn as the new
+    representatives their species are merged under one dict key."""
+    out = []
+    for _ in range(count):
+        n = rng.choice([2, 2, 3])
+        a_layer = {"n": n, "gates": [["I", 0], ["R", 1]] + [["I", q] for q in range(2, n)]}
+        b_layer = {"n": n, "gates": [["R", 0], ["I", 1]] + [["I", q] for q in range(2, n)]}
+        if rng.random() < 0.5:
+            a_layer = {"n": n, "gates": [["C", 0, 1], ["CR", 1, 0]] + [["R", q] for q in range(2, n)]}
+            b_layer = {"n": n, "gates": [["CR", 0, 1], ["C", 1, 0]] + [["R", q] for q in range(2, n)]}
+        k = evqe.layer_n_parameters(a_layer)
+        a = {"n": n, "layers": [a_layer], "values": [0.0] * k}
+        b = {"n": n, "layers": [b_layer], "values": [0.0] * k}
+        a2 = {"n": n, "layers": [a_layer], "values": [0.5] * k}
+        inds = [a, b] + [json.loads(json.dumps(rng.choice([a, b, a2]))) for _ in range(rng.randint(0, 3))]
+        rng.shuffle(inds)
+        steps = [{"op": "speciation", "thr": 1, "seed": rng.randint(0, 999)}, {"op": "selection", "alpha": 0.125, "beta": 0.0, "tournament": rng.choice([None, 2]), "seed": 5},
+                 {"op": "speciation", "thr": rng.choice([0, 1, 2]), "seed": rng.randint(0, 999)}]
+        out.append({"n": n, "inds": inds, "reps": [a2], "steps": steps, "workers": 2, "order": [1, 0, 1, 0], "positive": rng.random() < 0.5})
+    return out
+
+
+def mutation_after_speciation_specs(rng, count):
+    """A mutation operator applied DIRECTLY to a freshly speciated population (species information present), with
+    probabilities at which often nobody (or only some) is drawn - a legal sequence: the documented precondition only
+    constrains selection."""
+    out = []
+    for _ in range(count):
+        n, inds = random_population(rng, size=rng.choice([2, 2, 3, 4, 6]))
+        steps = [{"op": "speciation", "thr": rng.choice([1, 2, 3]), "seed": rng.randint(0, 10**6)}]
+        for _ in range(rng.randint(1, 3)):
+            steps.append({"op": rng.choice(["last", "param", "topo", "removal"]), "p": rng.choice([0.0, 0.0, 0.05, 0.3, 1.0]), "seed": rng.randint(0, 10**6)})
+            if rng.random() < 0.6:
+                steps.append({"op": "speciation", "thr": rng.choice([1, 2]), "seed": rng.randint(0, 10**6)})
+        if rng.random() < 0.5:
+            steps += [{"op": "speciation", "thr": 2, "seed": 9}, {"op": "selection", "alpha": 0.0, "beta": 0.0, "tournament": None, "seed": rng.randint(0, 999)}]
+        out.append({"n": n, "inds": inds, "reps": None, "steps": steps, "workers": rng.randint(1, 3), "order": [rng.randint(0, 5) for _ in range(12)],
+                    "positive": False, "evalmode": rng.choice(EVAL_MODES)})
+    return out
+
+
+def boundary_selection_specs(rng, count):
+    """Roulette / tournament selection at the boundaries of its arithmetic: best expectation value exactly 0.0 or -0.0,
+    all values equal, negative values, zero penalties, individuals without controlled gates."""
+    out = []
+    for _ in range(count):
+        n, inds = random_population(rng, n=rng.choice([1, 1, 2, 3]))
+        if rng.random() < 0.5:
+            for i in inds:  # no controlled gates: rotations and identities only
+                i["layers"] = [{"n": n, "gates": [[rng.choice(["R", "I"]), q] for q in range(n)]} for _ in i["layers"]]
+                i["values"] = [0.0] * sum(evqe.layer_n_parameters(l) for l in i["layers"])
+        steps = []
+        for _ in range(rng.randint(1, 3)):
+            steps += [{"op": "speciation", "thr": rng.choice([0, 1, 2]), "seed": rng.randint(0, 999)},
+                      {"op": "selection", "alpha": rng.choice([0.0, 0.0, 0.125]), "beta": rng.choice([0.0, 0.0, 0.5]), "tournament": rng.choice([None, None, None, 2]), "seed": rng.randint(0, 999)}]
+        out.append({"n": n, "inds": inds, "reps": None, "steps": steps, "workers": rng.randint(1, 4), "order": [rng.randint(0, 5) for _ in range(12)],
+                    "positive": False, "evalmode": rng.choice(["coarse", "coarse", "zero", "negzero", "neg", "equal"])})
+    return out
+
+
 def precondition_specs(rng, count):
     """Selection NOT preceded by a speciation (documented precondition violated): EVQESelectionException after the
     evaluations and the count callback."""
@@ -1031,7 +1147,14 @@ def precondition_specs(rng, count):
     return out
 
 
-def drive(ctx, pid, specs, step_oracle, end_oracle, checker, corr_key):
+def hash_equal_pairs(spec):
+    """Number of pairs of population members that are structurally different but equal for EVQEIndividual.__eq__."""
+    inds = [evqe.impl_individual(p) for p in spec["inds"]]
+    keys = [Table.key(p) for p in spec["inds"]]
+    return sum(1 for a in range(len(inds)) for b in range(a + 1, len(inds)) if keys[a] != keys[b] and inds[a] == inds[b])
+
+
+def drive(ctx, pid, specs, step_oracle, end_oracle, checker, corr_key, nontrivial=None):
     """Run every spec on the implementation, evaluate `step_oracle(trace, report, [(i, step)])` after every application
     and `end_oracle(trace, report)` at the end of the sequence, compare with the model through `checker`
     (check_case / check_heap_case).  Violations carry the spec (the operator sequence) as the replay."""
@@ -1041,23 +1164,35 @@ def drive(ctx, pid, specs, step_oracle, end_oracle, checker, corr_key):
     for spec in specs:
         found = []
         rep = lambda key, what, si: found.append((key, what, si))  # noqa: E731
+
+        def guarded_step(t, s, i):
+            # whatever the implementation returned, evaluating the property on it must not crash the check
+            try:
+                step_oracle(t, rep, [(i, s)])
+            except Exception as e:  # noqa: BLE001
+                rep(f"unreadable-output-{s.spec['op']}-{type(e).__name__}", f"the objects returned by {s.spec['op']} cannot be inspected: {type(e).__name__}: {e}", i)
+
         try:
-            tr = run_sequence(spec, after_step=None if step_oracle is None else (lambda t, s, i: step_oracle(t, rep, [(i, s)])))
+            tr = run_sequence(spec, after_step=None if step_oracle is None else guarded_step)
         except Exception as e:  # noqa: BLE001 - the harness could not even drive the operators
             import traceback
 
             ctx.violation("oracle", f"harness-{type(e).__name__}", f"driving the operator sequence failed outside apply_operator: {type(e).__name__}: {e}", spec, detail=traceback.format_exc()[-1500:])
             continue
         if end_oracle is not None:
-            end_oracle(tr, rep)
+            try:
+                end_oracle(tr, rep)
+            except Exception as e:  # noqa: BLE001
+                rep(f"unreadable-objects-{type(e).__name__}", f"the observed objects cannot be inspected at the end of the run: {type(e).__name__}: {e}", len(tr.steps) - 1)
         for key, what, si in found:
             ctx.violation("oracle", key, what, dict(spec, failing_step=si), detail=dict(completion_orders=[s.pi for s in tr.steps], executed_steps=len(tr.steps)))
         ops = [s["op"] for s in spec["steps"]]
-        ctx.case(spec, nontrivial=len(tr.steps) >= 1 and len(spec["inds"]) >= 2, sample=dict(n=spec["n"], individuals=len(spec["inds"]), ops=ops, workers=spec["workers"]))
+        ctx.case(spec, nontrivial=(len(tr.steps) >= 1 and len(spec["inds"]) >= 2) if nontrivial is None else nontrivial(spec, tr), sample=dict(n=spec["n"], individuals=len(spec["inds"]), ops=ops, workers=spec["workers"]))
         ctx.tally(f"qubits:{spec['n']}")
         ctx.tally(f"individuals:{len(spec['inds'])}")
         ctx.tally(f"length:{len(ops)}")
         ctx.tally(f"workers:{spec['workers']}")
+        ctx.tally(f"evaluator:{spec.get('evalmode', 'hash')}")
         for s in tr.steps:
             k = s.spec["op"]
             ctx.tally(f"op:{k}")
@@ -1069,12 +1204,27 @@ def drive(ctx, pid, specs, step_oracle, end_oracle, checker, corr_key):
                     ctx.tally("completion:out-of-order")
             if s.exc is not None:
                 ctx.tally(f"exception:{type(s.exc).__name__}")
-            if k == "speciation" and s.exc is None:
-                ctx.tally(f"species:{min(len(s.out.species_representatives), 9)}")
+            if k == "speciation" and s.exc is None and s.out_snap and s.out_snap["reps"] is not None:
+                ctx.tally(f"species:{min(len(s.out_snap['reps']), 9)}")
+            if k not in ("speciation", "selection") and s.arg_snap["members"] is not None:
+                ctx.tally("mutation-directly-after-speciation" + (":nobody-drawn" if not s.tasks else ""))
+            if k == "selection" and s.exc is None:
+                vals = [float.fromhex(v) for c in s.callbacks if c[0] == "result" for v in c[2]["values"]]
+                if vals and min(vals) == 0:
+                    ctx.tally("selection:best-value-exactly-0" + (":zero-penalties" if s.spec["alpha"] == 0 and s.spec["beta"] == 0 else ""))
+                if vals and min(vals) < 0:
+                    ctx.tally("selection:best-value-negative")
+                if vals and len(set(vals)) == 1:
+                    ctx.tally("selection:all-values-equal")
         if any(any(evqe.layer_n_parameters(i["layers"][-1]) == 0 for i in [p]) for p in spec["inds"]):
             ctx.tally("population:parameterless-last-layer")
         if spec.get("reps") is not None:
             ctx.tally("population:incoming-representatives")
+        if hash_equal_pairs(spec):
+            ctx.tally("population:hash-equal-but-different-individuals")
+        for s in tr.steps:
+            if s.spec["op"] == "speciation" and s.exc is None and s.out_snap and s.out_snap["members"] is not None and len(s.stream or []) > len(s.out_snap["members"]):
+                ctx.tally("speciation:merge-of-equal-representatives")
         if len({Table.key(p) for p in spec["inds"]}) < len(spec["inds"]):
             ctx.tally("population:duplicates")
         try:
@@ -1086,9 +1236,14 @@ def drive(ctx, pid, specs, step_oracle, end_oracle, checker, corr_key):
             ctx.violation("correspondence", f"{corr_key}-unrepresentable", f"the run cannot be written as a model case: {type(e).__name__}: {e}", spec)
     bad = core.model_mismatches(pid, IMPORTS, checker, glits, chunk=12, timeout=1200)
     if bad:
-        # does the implementation behave like the legacy (pre-fix) variant of the model?
-        legacy = [g_case(kept[i][1], legacy_opt=True, legacy_spec=True) for i in bad[:5]]
-        still = set(core.model_mismatches(pid + "_legacy", IMPORTS, checker, legacy, chunk=12))
+        # does the implementation behave like a legacy (pre-fix) variant of the model?
+        agrees = {}
+        for name, lo, ls in (("legacy optimize_layer (30c7b82 reverted)", True, False), ("legacy speciation (88eddcc reverted)", False, True), ("both legacy variants", True, True)):
+            legacy = [g_case(kept[i][1], legacy_opt=lo, legacy_spec=ls) for i in bad[:5]]
+            still = set(core.model_mismatches(pid + "_legacy", IMPORTS, checker, legacy, chunk=12))
+            for n_ in range(len(bad[:5])):
+                if n_ not in still:
+                    agrees.setdefault(n_, name)
         for n_, i in enumerate(bad[:5]):
             spec, tr = kept[i]
             try:
@@ -1096,7 +1251,7 @@ def drive(ctx, pid, specs, step_oracle, end_oracle, checker, corr_key):
             except Exception as e:  # noqa: BLE001
                 shown = f"(model_show failed: {e})"
             ctx.violation("correspondence", corr_key, "the Coq model of the EVQE operators and the implementation disagree on this operator sequence"
-                          + ("" if n_ in still else " (the implementation agrees with the LEGACY variant of the model: a fix was reverted)"),
+                          + (f" (the implementation agrees with the model variant: {agrees[n_]})" if n_ in agrees else ""),
                           spec, detail=dict(model=shown, implementation=[dict(op=s.spec["op"], out=s.out_snap, exc=None if s.exc is None else exc_name(s.exc),
                                                                                 callbacks=[c[:2] if c[0] == "count" else ("result", c[2]) for c in s.callbacks], pi=s.pi) for s in tr.steps]))
     ctx.traces += len(glits)
